@@ -844,6 +844,11 @@ impl StagingStore for FsOcflStore {
             }
         }
 
+        if content_dir.exists() {
+            // Directories emptied by an earlier, interrupted cleanup must not be committed
+            util::clean_dirs_down(&content_dir)?;
+        }
+
         Ok(())
     }
 
